@@ -60,6 +60,10 @@ def run_twin(name, kinds, pids, patch=None):
 
 
 def main():
+    only = None
+    for a in list(sys.argv[1:]):
+        if a.startswith("--only="):
+            only = set(a[7:].split(","))
     pids = [a for a in sys.argv[1:] if not a.startswith("--")]
     if not pids:
         pids = [c["property_id"] for c in json.load(open(f"{V}/MANIFEST.json"))["checks"]]
@@ -69,8 +73,10 @@ def main():
         for fn in sorted(os.listdir(tw_dir)):
             if fn.endswith(".diff"):
                 twins.append((fn[:-5], [], os.path.join(tw_dir, fn)))
+    if only is not None:
+        twins = [t for t in twins if t[0] in only or t[0].split("-")[0] in only]
     bad = 0
-    with cf.ThreadPoolExecutor(max_workers=8) as ex:
+    with cf.ThreadPoolExecutor(max_workers=14) as ex:
         futs = [ex.submit(run_twin, n, k, pids, p) for n, k, p in twins]
         for fu in futs:
             name, res = fu.result()
